@@ -758,7 +758,21 @@ def extra_evidence(tier):
     return {'exhaustive_subdomain': 'slices_exhaustive: every positional slice with start/stop in [-n-2, n+2] or None and step in {None,1,2,3,-1,-2,-3} for n <= %d on Series, Frame rows, Frame columns' % (5 if tier == 'quick' else 6)}
 
 
+def _hier_cases():
+    # per-level selection of the rows / columns of Series and Frames labelled by a hierarchy (the generator and the reference
+    # matcher are those of C05, restricted to containers)
+    from vf.props.c05 import hloc_cases
+    return hloc_cases().filter(lambda c: c['target'] != 'index')
+
+
+def check_hier(case):
+    from vf.props.c05 import check_hloc
+    return check_hloc(case)
+
+
 SUBS = [
+    Sub('hier_selection', _hier_cases(), check_hier, quick=2400, thorough=16000,
+        rule='Series / Frame selection on a hierarchical axis (HLoc with labels, lists, slices incl. stepped and descending, masks; tuples; ILoc) vs per-level matcher'),
     Sub('frame', frame_cases(), check_frame, quick=10000, thorough=64000, tag=tag_frame,
         rule='Frame iloc/loc/getitem vs list model'),
     Sub('series', series_cases(), check_series, quick=10000, thorough=64000, tag=tag,
